@@ -1,3 +1,4 @@
+import IgVerif.Model.Bytes
 /-!
 # Wrapper symbols: `hash_string`, `clean_identifier`, `hash_function_signature`
 
@@ -66,7 +67,7 @@ def HMap.insertNew (m : HMap) (k : List Char) (v : Option Sig) : HMap × Bool :=
 
 /-- candidate suffixes tried when the extended hash is taken too: `a` … `z`, then decimal numbers -/
 def suffixOf (i : Nat) : List Char :=
-  if i < 26 then [Char.ofNat (97 + i)] else (toString i).toList
+  if i < 26 then [Char.ofNat (97 + i)] else (showNat i).map Char.ofNat       -- decimal digits, as `format_string(i)` writes them
 
 /-- first candidate `old ++ suffixOf i`, `i = start, start+1, …`, that is not a key; `fuel` candidates are tried -/
 def firstFree (m : HMap) (old : List Char) : Nat → Nat → Option (List Char)
